@@ -91,7 +91,7 @@ example : (mergeChain [[(3, .normal 900 0)], [(3, .normal 100 0), (4, .normal 20
 
 /-- **The previous bytes are a prefix** of what an incremental save writes — unchanged, for
 every previous file and every new revision. -/
-theorem saveFrom_prefix (pre : Bytes) (d : Doc) (out : Bytes) (d' : Doc)
+theorem saveFrom_prefix (pre : Bytes) (d : SDoc) (out : Bytes) (d' : SDoc)
     (h : saveFrom pre d = some (out, d')) : pre <+: out := by
   have hbody : pre <+: (writeObjects d.objects (pre ++ PDF_KW ++ d.version ++ [10] ++ [37] ++ d.binaryMark ++ [10]) []).1 := by
     refine List.IsPrefix.trans ?_ (writeObjects_prefix _ _ _)
@@ -112,7 +112,7 @@ theorem saveFrom_prefix (pre : Bytes) (d : Doc) (out : Bytes) (d' : Doc)
       subst h1
       repeat (first | exact hbody | apply List.IsPrefix.trans ?_ (List.prefix_append _ _))
 
-theorem incr_prefix (prev : Bytes) (d : Doc) (out : Bytes) (d' : Doc)
+theorem incr_prefix (prev : Bytes) (d : SDoc) (out : Bytes) (d' : SDoc)
     (h : saveIncr prev d = some (out, d')) : prev <+: out := by
   unfold saveIncr at h
   exact List.IsPrefix.trans (List.prefix_append _ _) (saveFrom_prefix _ d out d' h)
